@@ -316,3 +316,9 @@ pub(crate) fn waker_wake_direct(w: task::Waker) {
 pub(crate) fn waker_wake_by_ref_direct(w: &task::Waker) {
     unsafe { w_wake_by_ref(w.data()) }
 }
+
+/// IORING_OP_PIPE as a10's bindings define it (newer opcode, not in every
+/// table).
+pub(crate) fn op_pipe() -> u32 {
+    libc::IORING_OP_PIPE
+}
